@@ -602,10 +602,16 @@ impl Interp {
                         }
                     }
                 }
+                let target = best.map(|b| b.1).unwrap_or(0);
+                // one attempt in three is followed, a block later, by the owner closing whatever the liquidation left
+                if (*who as usize + pre.height as usize) % 3 == 0 {
+                    self.w.follow.push_back(Act::NextBlock { dt: 15 });
+                    self.w.follow.push_back(Act::Close { t: target, v, limit: 0 });
+                }
                 Act::Liquidate {
                     who: WHO[(*who as usize) % WHO.len()].to_string(),
                     v,
-                    target: best.map(|b| b.1).unwrap_or(0),
+                    target,
                     limit: 0,
                     attach: 0,
                 }
